@@ -21,6 +21,7 @@ import struct
 
 from mc.core import Leg, Partial, CheckError, chunked
 from mc import num
+from mc import nosleep
 from pcbasic.basic.values import numbers as N
 from pcbasic.basic.values.randomiser import Randomiser
 from pcbasic.basic.base import error
@@ -68,6 +69,8 @@ MASK = M - 1
 SEED0 = 5228370
 
 BASICError = error.BASICError
+
+nosleep.install()
 
 
 def lcg(s):
